@@ -6,7 +6,7 @@
 From stdpp Require Import gmap list.
 From Coq Require Import NArith ZArith.
 From VFS Require Import Core.Types Core.Prog Core.Calls Base.MemFS Base.PhysFS Base.Handles Base.Store Layer.VfsPath Spec.Tree
-  Proofs.MemProofs Proofs.MemCalls Proofs.MemPublic Proofs.PhysProofs Proofs.PhysCreate.
+  Proofs.MemProofs Proofs.MemCalls Proofs.MemPublic Proofs.PhysProofs Proofs.PhysCreate Proofs.PhysFiles.
 
 Notation mstate := (gmap (list (list N)) memfile).
 
@@ -95,6 +95,48 @@ Theorem C02_agree_history : forall (hs hs' : list hstate) (lg lg' : list (nat * 
     abs s' = pabs ps' /\ wf s' /\ pwf (p_tree ps').
 Proof. exact agree_history. Qed.
 
+(** ** with files.  A write session (create_file - truncating -, write_all, drop) refines the same contract on the
+    modelled PhysicalFS as on MemoryFS, although PhysicalFS writes through the descriptor at once and MemoryFS
+    buffers and publishes on drop: *)
+Theorem C02_phys_write_file : forall lg ft (s : physfs) hs p data, pgood s ->
+  exists s' hs' r, run bhandler (write_file pv p data) (pstore s hs lg ft) = (pstore s' hs' lg ft, r) /\
+    pabs s' = fst (spec_write_file (pabs s) p data) /\
+    class_of r = snd (spec_write_file (pabs s) p data) /\ pgood s'.
+Proof. exact prefine_write_file. Qed.
+
+Theorem C02_mem_write_file : forall lg ft (s : mstate) hs p data, wf s ->
+  exists s' hs' r, run bhandler (write_file mv p data) (mstore s hs lg ft) = (mstore s' hs' lg ft, r) /\
+    abs s' = fst (spec_write_file (abs s) p data) /\
+    class_of r = snd (spec_write_file (abs s) p data) /\ wf s'.
+Proof. exact refine_write_file. Qed.
+
+(** whole histories WITH FILES: every sequence of exists / create_dir / write sessions with arbitrary bytes /
+    remove_file / remove_dir on any paths (wrong types, missing parents, overwriting an existing file included),
+    run on both backends from related states - in particular from the two empty filesystems: call by call the
+    same success or failure, exists answers the same, and the final trees are the same: entries, types and the
+    BYTES of every file *)
+Theorem C02_agree_history_with_files : forall (lg lg' : list (nat * fscall)) (ft ft' : option (nat * nat))
+    (ops : list hop5) (s : mstate) (ps : physfs) (hs hs' : list hstate),
+  Forall hop5_ok ops -> wf s -> pgood ps -> abs s = pabs ps ->
+  exists s' ps' hs1 hs1',
+    fst (hist5_run mv ops (mstore s hs lg ft)) = mstore s' hs1 lg ft /\
+    fst (hist5_run pv ops (pstore ps hs' lg' ft')) = pstore ps' hs1' lg' ft' /\
+    snd (hist5_run mv ops (mstore s hs lg ft)) = snd (hist5_run pv ops (pstore ps hs' lg' ft')) /\
+    abs s' = pabs ps' /\ wf s' /\ pgood ps'.
+Proof. exact agree_history_files. Qed.
+
+(** the empty filesystems are related and meet the hypotheses; and a concrete history that creates, overwrites
+    (shorter bytes) and removes files and directories, with two calls that fail, evaluated on both models *)
+Example C02_files_example :
+  pgood phys_new /\
+  let ops := [FCreateDir [[97%N]]; FWriteFile [[97%N]; [102%N]] [1; 2; 3; 4]%N; FWriteFile [[97%N]; [102%N]] [9]%N;
+              FWriteFile [[120%N]; [121%N]] [5]%N; FRemoveDir [[97%N]]; FExists [[97%N]; [102%N]];
+              FRemoveFile [[97%N]; [102%N]]; FRemoveDir [[97%N]]; FExists [[97%N]]] in
+  snd (hist5_run mv ops (mstore mem_new [] [] None)) = snd (hist5_run pv ops (pstore phys_new [] [] None)) /\
+  snd (hist5_run mv ops (mstore mem_new [] [] None)) =
+    [Some true; Some true; Some true; None; None; Some true; Some true; Some true; Some false].
+Proof. split; [exact pgood_new|]. vm_compute. split; reflexivity. Qed.
+
 Example C02_example : abs mem_new = pabs phys_new /\ wf mem_new /\ pwf (p_tree phys_new).
 Proof.
   split; [|split].
@@ -117,3 +159,7 @@ Print Assumptions C02_example.
 Print Assumptions C02_phys_create_dir.
 Print Assumptions C02_agree_create_dir.
 Print Assumptions C02_agree_history.
+Print Assumptions C02_phys_write_file.
+Print Assumptions C02_mem_write_file.
+Print Assumptions C02_agree_history_with_files.
+Print Assumptions C02_files_example.
